@@ -167,3 +167,42 @@ Definition outcome (prog : entry -> list stage) (disp : farmer_kind -> entry)
               end
   end.
 Definition enc_outcome (o : bool * bool) : val := VL [vbool (fst o); vbool (snd o)].
+
+(* ---- description wiring: which form of the swept description (combos, cases) reaches the batch
+        planner (choose_batch_settings), the saved settings (prepare -> save_info) and the runner that
+        sows; reaping rebuilds the grid from the SAVED description, so the three must be one term ---- *)
+Inductive dterm := DArg | DParse (t : dterm) | DSortByName (t : dterm) | DAbsent.
+Record descr_sites := mk_descr_sites {
+  ds_batch_combos : dterm; ds_batch_cases : dterm;
+  ds_saved_combos : dterm; ds_saved_cases : dterm;
+  ds_run_combos : dterm; ds_run_cases : dterm }.
+Definition model_sow_combos_sites : descr_sites :=
+  let cmb := DSortByName (DParse DArg) in let cs := DParse DArg in mk_descr_sites cmb cs cmb cs cmb cs.
+Definition model_sow_cases_sites : descr_sites :=
+  let cmb := DParse DArg in let cs := DParse DArg in mk_descr_sites cmb cs cmb cs cmb cs.
+
+Fixpoint dterm_eqb (a b : dterm) : bool :=
+  match a, b with
+  | DArg, DArg | DAbsent, DAbsent => true
+  | DParse a', DParse b' | DSortByName a', DSortByName b' => dterm_eqb a' b'
+  | _, _ => false
+  end.
+Definition descr_consistent (s : descr_sites) : bool :=
+  dterm_eqb (ds_saved_combos s) (ds_run_combos s) && dterm_eqb (ds_saved_cases s) (ds_run_cases s)
+  && dterm_eqb (ds_batch_combos s) (ds_run_combos s) && dterm_eqb (ds_batch_cases s) (ds_run_cases s).
+
+(* meaning over a description given as (argument id, values) pairs: parsing normalises spellings (the
+   harness hands over normal forms), sorting orders by argument id, an absent argument is empty *)
+Fixpoint insert_by_name (kv : Z * list Z) (l : list (Z * list Z)) : list (Z * list Z) :=
+  match l with
+  | [] => [kv]
+  | y :: l' => if fst kv <=? fst y then kv :: l else y :: insert_by_name kv l'
+  end.
+Fixpoint dterm_eval (t : dterm) (x : list (Z * list Z)) : list (Z * list Z) :=
+  match t with
+  | DArg => x
+  | DParse t' => dterm_eval t' x
+  | DSortByName t' => fold_right insert_by_name [] (dterm_eval t' x)
+  | DAbsent => []
+  end.
+Definition descr_size (x : list (Z * list Z)) : Z := fold_right (fun kv acc => Z.of_nat (length (snd kv)) * acc) 1 x.
